@@ -260,6 +260,7 @@ func Mk(op, k string, args ...*Term) *Term {
 // MkStruct builds a struct value; a struct whose fields are all the corresponding fields of one
 // opaque value X collapses back to X.
 func MkStruct(typ string, names []string, vals []*Term) *Term {
+	names, vals = canonFields(names, vals)
 	if len(vals) > 0 {
 		same := true
 		var base *Term
@@ -317,3 +318,48 @@ func fmtTerms(ts []*Term) string {
 }
 
 var _ = fmt.Sprint
+
+// canonFields orders struct fields independently of their declaration order: key, value, expiration roles first,
+// then by name (a struct regrouped or with a transparent embedded part prints the same).
+func canonFields(names []string, vals []*Term) ([]string, []*Term) {
+	rank := func(n string) int {
+		switch n {
+		case "k":
+			return 0
+		case "v":
+			return 1
+		case "e":
+			return 2
+		}
+		return 3
+	}
+	sorted := true
+	for i := 1; i < len(names); i++ {
+		if rank(names[i-1]) > rank(names[i]) || (rank(names[i-1]) == 3 && rank(names[i]) == 3 && names[i-1] > names[i]) {
+			sorted = false
+		}
+	}
+	if sorted || len(names) != len(vals) {
+		return names, vals
+	}
+	idx := make([]int, len(names))
+	for i := range idx {
+		idx[i] = i
+	}
+	sort.SliceStable(idx, func(a, b int) bool {
+		ra, rb := rank(names[idx[a]]), rank(names[idx[b]])
+		if ra != rb {
+			return ra < rb
+		}
+		if ra == 3 {
+			return names[idx[a]] < names[idx[b]]
+		}
+		return false
+	})
+	n2 := make([]string, len(names))
+	v2 := make([]*Term, len(vals))
+	for i, j := range idx {
+		n2[i], v2[i] = names[j], vals[j]
+	}
+	return n2, v2
+}
